@@ -72,6 +72,14 @@ pub fn families(a: &Args, rng: &mut Rng) -> Vec<Fam> {
             v.push(Fam { t: crate::manager::t_from_json(&j), fam: "tlc-generated" });
         }
     }
+    for (i, t) in literal_family(&pool).into_iter().enumerate() {
+        if a.thorough() || i % 2 == (a.seed as usize) % 2 {
+            v.push(Fam { t, fam: "literal-like" });
+        }
+    }
+    for _ in 0..a.sz(500, 8000) {
+        v.push(Fam { t: random_shared_term(rng, &pool), fam: "random" });
+    }
     let nrand = a.sz(700, 12000);
     for i in 0..nrand {
         let d = 2 + (i % 4);
